@@ -579,7 +579,42 @@ def c10a_clone_from_clears(prog):
         # ---- clear pass
         nexts = [a_ for a_, v in p.conds if isinstance(a_, tuple) and a_[0] in ('next', 'nonempty') and
                  (lambda rk: S(rk[0]) == p_self and 'iter_mut' in rk[1])(pathsem.iter_chain(a_[1]))]
-        if not nexts:
+        def skip_justified():
+            """The pass has nothing to clear when every table of `self` is the image of a source archetype. A path may
+            skip it if it established that by counting: (a) `identifier_map.len()` (one entry, one distinct image, per
+            source archetype) is not below the number of tables `self` holds *now* (read after the last insert), or
+            (b) a count of the look-up hits of this path is not below the number of tables `self` held *before* any
+            insert (the new tables are images by construction)."""
+            raw_i = adt_field_index(prog, 'archetypes::Archetypes', 'raw_archetypes')
+            ins_ep = [e['epoch'] for e in p.calls(lambda e: e['name'] in ('insert', 'insert_unique_unchecked', 'insert_unchecked') and
+                                                  (S(e['vals'][0]) in (p_self, ('d', p_self)) or pathsem.mentions(e['vals'][0], lambda t: pathsem.is_field_of(t, 'archetypes::Archetypes', raw_i) and S(S(t)[1]) in (p_self, ('d', p_self)))))]
+            hits = len([1 for e in p.calls(lambda e: e['name'] == 'clone_from' and len(e['vals']) == 2) if any(t_['hit'] and pathsem.mentions(S(e['vals'][0]), lambda t, r_=S(t_['ret']): t == r_) for t_ in table_lookups(prog, p))])
+
+            def tables_len(t):
+                # -> epoch of a `len()` of self's table, or None
+                if isinstance(t, tuple) and t[0] == 'call' and t[1].rsplit('::', 1)[-1] == 'len' and len(t) > 4 and t[2] and \
+                        pathsem.mentions(t[2][0], lambda u: pathsem.is_field_of(u, 'archetypes::Archetypes', raw_i) and S(S(u)[1]) in (p_self, ('d', p_self))):
+                    return t[4] if t[4] is not None else -1
+                return None
+
+            def images(t, ep_tables):
+                if isinstance(t, tuple) and t[0] == 'call' and t[1].rsplit('::', 1)[-1] == 'len' and 'HashMap' in t[1] and t[2] and idmap is not None and S(t[2][0]) == idmap:
+                    # the whole map, against the tables as they are after the last insert
+                    return all(ep_tables >= e_ for e_ in ins_ep)
+                if isinstance(t, tuple) and t[0] == 'c' and t[1] == hits:
+                    # this path's hits, against the tables as they were before the first insert
+                    return all(ep_tables < e_ for e_ in ins_ep)
+                return False
+            for a_, v in p.conds:
+                if not (isinstance(a_, tuple) and a_[0] == 'bin' and a_[1] in ('Lt', 'Eq') and not isinstance(v, tuple)):
+                    continue
+                x, y = a_[2], a_[3]
+                for im, tb, ok in ((x, y, (a_[1] == 'Lt' and v is False) or (a_[1] == 'Eq' and v is True)), (y, x, (a_[1] == 'Lt' and v is True) or (a_[1] == 'Eq' and v is True))):
+                    ep = tables_len(tb)
+                    if ok and ep is not None and images(im, ep):
+                        return True
+            return False
+        if not nexts and not skip_justified():
             once('clear-pass-skippable', None,
                  'a path through clone_from returns without running the pass that clears destination-only archetypes: their rows (and identifiers) survive and the world holds entities the source never had')
         for d_el in yielded(p, 'iter_mut', p_self):
